@@ -248,6 +248,25 @@ func (s *Secret) hash() string {
 // wildcard certificate copied to every namespace): the content is a function of the version alone.
 const SharedVersion = 1000
 
+// ChainStep: for non-shared versions the certificate (leaf + key) is a function of Version % ChainStep and the
+// intermediate chain appended to tls.crt of Version / ChainStep (0 = none): versions 1 and 101 hold the SAME leaf
+// and key with a different chain (what appending a forgotten intermediate, or a switch to a cross-signed
+// intermediate, looks like). The version as a whole stays the identity of the content.
+const ChainStep = 100
+
+func (s *Secret) leafID() string {
+	if s.Version >= SharedVersion {
+		return s.contentID()
+	}
+	return fmt.Sprintf("%s/%s@%d", s.Namespace, s.Name, s.Version%ChainStep)
+}
+func (s *Secret) chainVariant() int {
+	if s.Version >= SharedVersion {
+		return 0
+	}
+	return s.Version / ChainStep
+}
+
 func (s *Secret) contentID() string {
 	if s.Version >= SharedVersion {
 		return fmt.Sprintf("shared@%d", s.Version)
